@@ -57,7 +57,7 @@ CHECKS["C06"] = ("Coq theorems over a transliteration of core/src/options (all p
          "(3) an inventory of every panic site of core/src and macro/src with the reason it is unreachable.",
          "Coq proof (case analysis over a transliterated validator) + per-run differential correspondence + panic-site inventory")
 CHECKS["C10"] = ("Coq model Options/Resolve.v of the order-sensitive derive-time validation and an ORDER-FREE executable reading of the property (Spec/C10.v: counts over the set of options of each element, body rules); "
-         "theorems: a rejection is never empty; the FIELD option chain (any item list, any order, any split over #[darling] attributes) accepts iff an order-free predicate on option kinds holds - by refinement of the item fold to an abstract state machine and a reflective sweep over all abstract configurations (forallb by vm_compute lifted with forallb_forall) - hence field acceptance is order- and split-invariant; the same for the VARIANT option chain (each of rename / skip / word at most once, word only on a unit variant), by direct induction; the CONTAINER option chain of every derive is characterised exactly (refinement to a five-bit machine: once-only options at most once, no `default` after `default` or `from_ident`; order-free where from_ident is absent); the one order dependence of the container chain (from_ident before default) is proved as a _refuted theorem and listed as the known finding; the executable reading evaluated on the code in every run (field_wf, variant options, container_wf of Spec/C10.v: counts of option names and accepted value forms, no state) is PROVED equal to the model's chains for every attribute list, order and split (Options/SpecBridge.v; container: plus the clause `no default after from_ident`); the correspondence check compares model and code on accept/reject AND on every diagnostic's position and message, in order, and evaluates the order-free "
+         "theorems: a rejection is never empty; the FIELD option chain (any item list, any order, any split over #[darling] attributes) accepts iff an order-free predicate on option kinds holds - by refinement of the item fold to an abstract state machine and a reflective sweep over all abstract configurations (forallb by vm_compute lifted with forallb_forall) - hence field acceptance is order- and split-invariant; the same for the VARIANT option chain (each of rename / skip / word at most once, word only on a unit variant), by direct induction; the CONTAINER option chain of every derive is characterised exactly (refinement to a five-bit machine: once-only options at most once, no `default` after `default` or `from_ident`; order-free where from_ident is absent); the one order dependence of the container chain (from_ident before default) is proved as a _refuted theorem and listed as the known finding; the executable reading evaluated on the code in every run (field_wf, variant options, container_wf of Spec/C10.v: counts of option names and accepted value forms, no state) is PROVED equal to the model's chains for every attribute list, order and split (Options/SpecBridge.v; container: plus the clause `no default after from_ident`), and COMPOSED through parse_body / validate_body into `resolve = Accepted <-> well_formed_10 and no default after from_ident` for all six derives and every declaration (Options/ComposeProofs.v; hypothesis decl_shapedb evaluated on every declaration run); the correspondence check compares model and code on accept/reject AND on every diagnostic's position and message, in order, and evaluates the order-free "
          "specification on the code's verdict - exhaustively for all ordered singles/pairs/(triples) of field options x every attribute split, all ordered pairs of container options, variant option subsets, body rules, six derives.",
          "Coq proof (refinement to an abstract option-kind machine + reflective finite sweep; order/split invariance) + order-free executable specification evaluated on the implementation's verdict; per-run differential correspondence (exhaustive over option pairs/triples and attribute splits)")
 CHECKS["C03"] = ("Coq theorems: with_span only fills an empty span (first writer wins), locations and spans are independent, flatten()/into_vec yield the leaves each with its own span or else its nearest "
